@@ -43,6 +43,14 @@ type c11Case struct {
 	Par      int               `json:"parallelism,omitempty"`
 	MapMode  string            `json:"map_mode,omitempty"`
 	Seed     uint64            `json:"seed"`
+	// Prelude: earlier invocations in the same process (SDK style), each with its own plugins and limit
+	Prelude []c11Prelude `json:"prelude,omitempty"`
+}
+
+type c11Prelude struct {
+	Cfg     config      `json:"config"`
+	Plugins []c11Plugin `json:"plugins"`
+	Limit   string      `json:"limit,omitempty"`
 }
 
 func (c *c11Case) path(p *c11Plugin) string {
@@ -82,7 +90,39 @@ func (c *c11Case) spec() *simrt.Spec {
 	if c.Quiet {
 		cc.Extra = append(cc.Extra, "-q")
 	}
+	// earlier invocations: argv of each, their plugin programs join the world
+	type extra struct {
+		path    string
+		script  interface{}
+		version string
+	}
+	var extras []extra
+	for i, pre := range c.Prelude {
+		pc := &cmdCase{Prog: cc.Prog, Cfg: pre.Cfg, OutDir: fmt.Sprintf("/prelude/out%d", i)}
+		for k := range pre.Plugins {
+			p := &pre.Plugins[k]
+			ps := plugSpec{Name: p.Name, Opts: p.Opts, Script: p.Script, Version: p.Version, Missing: p.Missing}
+			if p.ByPath {
+				ps.Path = c.path(p)
+			}
+			pc.Plugins = append(pc.Plugins, ps)
+			if !p.Missing {
+				extras = append(extras, extra{c.path(p), p.Script, p.Version})
+			}
+		}
+		if pre.Limit != "" {
+			pc.Extra = append(pc.Extra, "--plugin-time-limit", pre.Limit)
+		}
+		cc.Prelude = append(cc.Prelude, pc.spec(0).Args)
+	}
 	sp := cc.spec(c.Seed)
+	for _, e := range extras {
+		b, _ := json.Marshal(e.script)
+		sp.Programs[e.path] = b
+		if e.version != "" {
+			sp.BuildInfo[e.path] = e.version
+		}
+	}
 	sp.Strategy = c.Strategy
 	sp.Parallelism = c.Par
 	if sp.Parallelism == 0 {
@@ -630,6 +670,7 @@ func c11Check(a *artefacts, tier string, seed uint64, replay string) int {
 		// plugin-less baseline: accepted? which files does the backend hand in?
 		base := *c
 		base.Plugins = nil
+		base.Prelude = nil
 		bw := runWorld(a, base.spec())
 		mu.Lock()
 		runs++
@@ -667,6 +708,21 @@ func c11Check(a *artefacts, tier string, seed uint64, replay string) int {
 		}
 		for k := 0; k < np; k++ {
 			c.Plugins = append(c.Plugins, c11GenPlugin(r, k, c.limit(), backendFiles))
+		}
+		// a quarter of the cases are sessions: an earlier invocation in the same process with its own
+		// plugin (healthy, failing or slow) and its own time limit
+		if r.Chance(1, 4) {
+			pre := c11Prelude{Cfg: config{Backend: []string{"go", "fastgo"}[r.Intn(2)], Rec: r.Chance(1, 2)}, Limit: []string{"", "50ms", "1s", "1m", "0"}[r.Intn(5)]}
+			lim := time.Minute
+			if pre.Limit != "" {
+				if d, err := time.ParseDuration(pre.Limit); err == nil {
+					lim = d
+				}
+			}
+			pp := c11GenPlugin(r, 7, lim, backendFiles)
+			pp.Name = "q0"
+			pre.Plugins = []c11Plugin{pp}
+			c.Prelude = append(c.Prelude, pre)
 		}
 		// with two languages, some faulty plugins misbehave for one language only
 		if c.Second != nil {
@@ -725,6 +781,12 @@ func c11Check(a *artefacts, tier string, seed uint64, replay string) int {
 		}
 		if c.Compress {
 			stats["cases.compress-env"]++
+		}
+		if len(c.Prelude) > 0 {
+			stats["cases.sessions-with-earlier-invocation"]++
+			if len(wr.Res.Sections) == 0 {
+				stats["cases.session-ended-in-prelude"]++
+			}
 		}
 		distinct[fmt.Sprintf("%s|%s|%v|%s|%v", c.Prog, c.Cfg, kinds, c.Limit, c.Compress)] = true
 		if len(samples) < 3 {
@@ -808,6 +870,7 @@ func c11RunJudge(a *artefacts, c *c11Case) *c11Verdict {
 	// the same command without plugins must be accepted, otherwise the case says nothing about plugins
 	base := *c
 	base.Plugins = nil
+	base.Prelude = nil
 	if !accepted(runWorld(a, base.spec())) {
 		return &c11Verdict{}
 	}
